@@ -14,6 +14,9 @@ import traceback
 
 sys.path.insert(0, os.path.dirname(os.path.dirname(os.path.abspath(__file__))))
 os.environ.setdefault("PYTHONHASHSEED", "0")
+import warnings  # noqa: E402
+warnings.filterwarnings("ignore", category=RuntimeWarning)   # "coroutine ... was never awaited" when a scenario stops a dispatcher
+warnings.filterwarnings("ignore", category=DeprecationWarning)
 
 from harness import common, tlc  # noqa: E402
 
